@@ -7,9 +7,9 @@
    (validated against real ``def``s on every run by Tie/C18.v); [spec_info] / [render] are what
    the property statement asks getSignatureInfo() / getSignatureString() to report.
    Names and default values are abstract identifiers (nat). *)
-From Coq Require Import List ZArith Bool Arith.
+From Coq Require Import List ZArith Bool Arith NArith.
 Import ListNotations.
-From ZI Require Import Model.PyFunc Spec.Signature Gen.FromFunction Model.FromFunctionPrefix Proofs.FromFunction.
+From ZI Require Import Lib.Str Model.PyFunc Spec.Signature Gen.FromFunction Model.FromFunctionPrefix Proofs.FromFunction.
 
 (* For every valid signature (any number of positional-only, positional-or-keyword and
    keyword-only parameters with any defaults satisfying Python's rule, optional *name and
@@ -65,6 +65,58 @@ Theorem C18_fromMethod_strips_self :
 Proof. exact fromMethod_strips_self. Qed.
 Print Assumptions C18_fromMethod_strips_self.
 
+(* ---- generated = model.  getSignatureString_gen, getSignatureInfo, the Element accessors and
+   abc_method_from_function are REGENERATED from the source on every run (Gen/FromFunction.v);
+   Model/PyFunc.v getSignatureString / tag_reads are what the theorems above, the Spec oracle and
+   the correspondence use. *)
+
+(* Method.getSignatureString as the source computes it (list accumulator, "=" + repr(default),
+   "*" / "**" prefixes, "(%s)" % ", ".join) renders, for every method description and every
+   name / repr table, exactly the model's token list; getSignatureInfo reports the five fields *)
+Theorem C18_generated_signature_string_eq_model :
+  forall (names reprs : list str) (m : method),
+  pstr_text names reprs (getSignatureString_gen m) = sig_text names reprs (getSignatureString m)
+  /\ getSignatureInfo m = (m_positional m, m_required m, m_optional m, m_varargs m, m_kwargs m).
+Proof. intros names reprs m. split; [apply signature_string_eq | apply info_eq]. Qed.
+Print Assumptions C18_generated_signature_string_eq_model.
+
+(* Element's tagged values: after setTaggedValue(k, v) for the items of [d] (what fromFunction does
+   with func.__dict__) on a fresh description, every read accessor — getTaggedValue,
+   getDirectTaggedValue, queryTaggedValue / queryDirectTaggedValue without and with a default,
+   getTaggedValueTags, getDirectTaggedValueTags — answers as the dict does (model tag_reads),
+   falsy values included, and the stored dict is the one fromFunction's kernel computes *)
+Theorem C18_generated_tagged_eq_model :
+  forall (d : list (name * dflt)) (none : nat) (t : name),
+  let tv := fold_left (fun tv kv => setTaggedValue tv (fst kv) (snd kv)) d tv_init in
+  let d' := dict_update [] d in
+  [code_get (getTaggedValue tv t); code_get (getDirectTaggedValue tv t);
+   code_query none (queryTaggedValue tv t queryTaggedValue_default);
+   code_query none (queryDirectTaggedValue tv t queryTaggedValue_default);
+   code_query_d (queryTaggedValue tv t VSentinel);
+   code_query_d (queryDirectTaggedValue tv t VSentinel)] = tag_reads d' none t
+  /\ getTaggedValueTags tv = map fst d' /\ getDirectTaggedValueTags tv = map fst d'
+  /\ tv_dict tv = d'.
+Proof. exact tagged_eq. Qed.
+Print Assumptions C18_generated_tagged_eq_model.
+
+(* ABCInterfaceClass.__method_from_function describes the ABC's function with its first
+   positional parameter bound (imlevel 1, or 0 when there is none), hence by
+   C18_fromFunction_correct positional, required AND optional all lose the leading self *)
+Theorem C18_generated_abc_method_eq_model :
+  (forall co : code,
+     abc_method_from_function co
+     = fromFunction (with_imlevel (if Nat.eqb (co_argcount co) 0 then 0 else 1) co))
+  /\ (forall (s : signature) (locals : list name) (fd : list (name * dflt)) (iml0 : nat),
+       valid s -> NoDup (map fst fd) ->
+       abc_method_from_function (layout s locals fd iml0)
+       = Ok (mkMethod (map fst (tl (posonly s ++ pos s)))
+                      (map fst (filter (fun p => negb (has_default p)) (tl (posonly s ++ pos s))))
+                      (flat_map (fun p => match snd p with Some d => [(fst p, d)] | None => [] end)
+                                (tl (posonly s ++ pos s)))
+                      (vararg s) (varkw s) fd)).
+Proof. split; [exact generated_abc_eq | exact generated_abc_correct]. Qed.
+Print Assumptions C18_generated_abc_method_eq_model.
+
 (* ---------------------------------------------------------------- non-vacuity witnesses *)
 (* names: 0 self, 1 a, 2 b, 3 c, 4 args, 5 k, 6 j, 7 kw, 8 x (local), 9 y (local), 10 attr;
    def m(self, a, /, b, c=D0, *args, k=D1, j, **kw): x = y = None      m.attr = D2 *)
@@ -95,6 +147,17 @@ Example C18_ex_negative_nr :
   valid ex_sig_alldef /\
   fromMethod (layout ex_sig_alldef [] [] 0) = Ok (mkMethod [1] [] [(1, 1)] None None []).
 Proof. split; [split; [reflexivity | cbn; nodup] | vm_compute; reflexivity]. Qed.
+
+(* falsy attribute values survive every accessor (the table index of None is 2 here):
+   tags 10 -> object 12 (False), 11 -> object 2 (None) *)
+Example C18_ex_tagged_falsy :
+  let tv := fold_left (fun tv kv => setTaggedValue tv (fst kv) (snd kv)) [(10, 12); (11, 2)] tv_init in
+  queryTaggedValue tv 10 VSentinel = VObj 12 /\ queryTaggedValue tv 11 queryTaggedValue_default = VObj 2
+  /\ getTaggedValue tv 10 = RVal (VObj 12) /\ getTaggedValue tv 9 = RKeyError
+  /\ queryTaggedValue tv 9 VSentinel = VSentinel /\ getTaggedValueTags tv = [10; 11]
+  /\ abc_method_from_function (layout ex_sig [8; 9] [(10, 2)] 0)
+     = Ok (mkMethod [1; 2; 3] [1; 2] [(3, 0)] (Some 4) (Some 7) [(10, 2)]).
+Proof. vm_compute. repeat split. Qed.
 
 (* a method that takes its instance through *args: nothing is stripped.
    def m( *args, k=D1, **kw)  via fromMethod  ->  ( *args, **kw);  names 4 args, 5 k, 7 kw *)
